@@ -10,7 +10,7 @@
    FunctionalExtensionality.functional_extensionality_dep) through Flocq. *)
 From Coq Require Import ZArith Reals List Bool.
 From Flocq Require Import Core.Core IEEE754.BinarySingleNaN.
-From GV Require Import Base.W64 Base.F64 Num.Model Num.Spec Num.IntProofs Num.MixedCmp Num.CmpOrder Num.ConvProofs.
+From GV Require Import Base.W64 Base.F64 Num.Model Num.Spec Num.IntProofs Num.MixedCmp Num.CmpOrder Num.ConvProofs Num.StrSpec Num.StrModel Num.StrProofs.
 Open Scope Z_scope.
 
 (* ---- integer arithmetic wraps around modulo 2^64 ---- *)
@@ -185,3 +185,31 @@ Theorem C02_bitwise_closed : forall a b, in64 a -> in64 b ->
   in64 (and64 a b) /\ in64 (or64 a b) /\ in64 (xor64 a b) /\ in64 (not64 a).
 Proof. exact bitwise_closed. Qed.
 Print Assumptions C02_bitwise_closed.
+
+(* ---- string -> number: StringToNumber (runtime/numconv.go after the repair) accepts exactly the manual's
+   numeral syntax (ASCII white space, one sign, decimal/hex integers and floats) and returns the value the
+   manual defines, for EVERY byte string, provided Go's strconv functions are correct on the syntactically
+   valid texts they are handed (ParseInt_ok, ParseUint16_ok, ParseFloat_dec_ok, ParseFloat_hex_ok: Section
+   hypotheses, trusted base, sampled by the correspondence check). ---- *)
+Theorem C02_to_number_string_spec : forall ParseInt ParseUint16 ParseFloat,
+  ParseInt_ok ParseInt -> ParseUint16_ok ParseUint16 -> ParseFloat_dec_ok ParseFloat -> ParseFloat_hex_ok ParseFloat ->
+  forall s, StringToNumber ParseInt ParseUint16 ParseFloat s = s_str2number s.
+Proof. exact to_number_string_spec. Qed.
+Print Assumptions C02_to_number_string_spec.
+
+(* numeric literals: ast.NewNumber on a numeral token denotes the same number *)
+Theorem C02_literal_spec : forall ParseInt ParseUint16 ParseFloat,
+  ParseInt_ok ParseInt -> ParseUint16_ok ParseUint16 -> ParseFloat_dec_ok ParseFloat -> ParseFloat_hex_ok ParseFloat ->
+  forall tok, numeral_token tok -> NewNumber ParseInt ParseUint16 ParseFloat tok = s_str2number tok.
+Proof. exact literal_spec. Qed.
+Print Assumptions C02_literal_spec.
+
+(* math.fmod after the repair: truncated remainder on integers (zero divisor is an error), C fmod on floats *)
+Theorem C02_math_fmod_spec : forall x y, math_fmod x y = s_math_fmod x y.
+Proof. exact math_fmod_spec. Qed.
+Print Assumptions C02_math_fmod_spec.
+
+Theorem C02_math_fmod_int_props : forall a b, b <> 0 ->
+  exists r, math_fmod (NInt a) (NInt b) = ROk (NInt r) /\ a = b * Z.quot a b + r /\ Z.abs r < Z.abs b /\ 0 <= r * a.
+Proof. exact math_fmod_int_props. Qed.
+Print Assumptions C02_math_fmod_int_props.
